@@ -98,6 +98,14 @@ def run(chk):
         "Élan Über is 3\nBuild ÉLAN ÜBER up\nsay Élan Über\n", "Ölçer takes X\ngive back X\n\nsay ölçer taking 4\n", "Gina'Re 7\nsay gina\n", "The boys'Re 4\nBuild the boys up\nsay the boys\n",
         "Johnny Rotten'rE 2\nsay Johnny Rotten\n", "Tommy is 3\nThey'Re 5\nsay Tommy\n", "SAY 1\nsAy 2\nShOuT 3\nPUT 4 INTO x\nSaY X\n", "x is 1\nİS\n", "KNOCK x DOWN\n", "Ǆ is 5\nsay ǆ\nsay ǅ\n", "ΣΑΣ is 5\nsay σας\n",
     ]
+    special = ["οδοσ", "σας", "σ", "ας", "straße", "ıslak", "istanbul", "ǆungla", "ﬁx", "ångström", "kelvin", "ǰ", "ŉ", "éa", "ꙁ", "ᵹ", "ß"]
+    for w in special:
+        for lo, up in ((w, w.upper()), (w, w.title()), (w.upper(), w), (w.title(), w.upper()), (w.upper().lower(), w.upper())):
+            fixed.append(f"{lo} is 5\nbuild {up} up\nsay {lo}\nsay {up}\n")
+            fixed.append(f"the {lo} is 5\nbuild THE {up} up\nsay the {lo}\nsay The {up}\n")
+            fixed.append(f"{lo.title()} {lo.title()} is 5\nbuild {up.upper()} {up.upper()} up\nsay {lo.title()} {lo.title()}\n")
+            fixed.append(f"Doctor {lo.title()} takes X\ngive back X plus 1\n\nsay DOCTOR {up.upper()} taking 3\nsay Doctor {lo.title()} taking 4\n")
+            fixed.append(f"my {lo} takes X\ngive back X\n\nsay MY {up} taking 3\n")
     recs2 = execsuite.run(chk, [{"src": f} for f in fixed], "fixed", suite_name="EXEC-case-fixed")
     # declarations that clash: two mentions of one name in declaring positions (parameter lists, function after
     # function, function after variable and the reverse, at top level and in a block); the second mention re-cased
